@@ -159,9 +159,10 @@ class WorkingHours:
 
             # Check for cross-midnight shift (e.g., 22:00 - 06:00)
             if end_minutes <= start_minutes:
-                # This interval crosses midnight
-                # Working time is: start_minutes <= slot < 1440 OR 0 <= slot < end_minutes
-                if slot_minutes >= start_minutes or slot_minutes < end_minutes:
+                # This interval crosses midnight: on its own day it covers start_minutes <= slot < 1440;
+                # the part after midnight (0 <= slot < end_minutes) belongs to the NEXT day and is
+                # found by the previous-day check below
+                if slot_minutes >= start_minutes:
                     return True
             else:
                 # Normal interval within same day
